@@ -418,10 +418,9 @@ func (c *ServerChannel) FinishSession(ctx context.Context) error {
 
 	c.setState(SessionStateFinished)
 
-	if err == nil {
-		if err = c.transport.Close(); err != nil {
-			err = fmt.Errorf("closing the transport failed: %w", err)
-		}
+	// The session is over and the connection is released, also when the envelope could not be sent
+	if cerr := c.transport.Close(); cerr != nil && err == nil {
+		err = fmt.Errorf("closing the transport failed: %w", cerr)
 	}
 
 	return err
@@ -444,10 +443,9 @@ func (c *ServerChannel) FailSession(ctx context.Context, reason *Reason) error {
 
 	c.setState(SessionStateFailed)
 
-	if err == nil {
-		if err = c.transport.Close(); err != nil {
-			err = fmt.Errorf("closing the transport failed: %w", err)
-		}
+	// The session is over and the connection is released, also when the envelope could not be sent
+	if cerr := c.transport.Close(); cerr != nil && err == nil {
+		err = fmt.Errorf("closing the transport failed: %w", cerr)
 	}
 
 	return err
